@@ -315,12 +315,16 @@ func runCheck(id, tier string, seed int64) int {
 
 func (cc *CheckCtx) finish(pd *PropDef, wall float64) int {
 	known := loadKnownFindings()
-	total, discharged, violations := 0, 0, 0
+	total, discharged, violations, kfCount := 0, 0, 0, 0
+	evDir, repDir := "/verif/evidence", "/verif/replays"
+	if d := os.Getenv("GOVC_OUT"); d != "" {
+		evDir, repDir = filepath.Join(d, "evidence"), filepath.Join(d, "replays")
+	}
 	backends := map[string]int{}
 	solverSec := 0.0
 	var vioLines, kfLines []string
 	seenKF := map[string]bool{}
-	os.MkdirAll(filepath.Join("/verif/replays", cc.Prop), 0o755)
+	os.MkdirAll(filepath.Join(repDir, cc.Prop), 0o755)
 	sort.SliceStable(cc.Results, func(i, j int) bool { return cc.Results[i].Name < cc.Results[j].Name })
 	for _, r := range cc.Results {
 		total++
@@ -342,10 +346,12 @@ func (cc *CheckCtx) finish(pd *PropDef, wall float64) int {
 			}
 		}
 		if isKF {
+			total-- // known findings are reported separately, not counted as obligations to discharge
+			kfCount++
 			continue
 		}
 		violations++
-		path := filepath.Join("/verif/replays", cc.Prop, slug(r.Name)+".json")
+		path := filepath.Join(repDir, cc.Prop, slug(r.Name)+".json")
 		rep := map[string]interface{}{"property": cc.Prop, "obligation": r.Name, "status": r.Status, "smt_file": r.File, "solver": r.Solver, "solver_output": truncate(r.Output+r.Model, 20000), "function": r.Pkg + "." + r.Func}
 		suffix := ""
 		if r.Replay != nil {
@@ -410,6 +416,7 @@ func (cc *CheckCtx) finish(pd *PropDef, wall float64) int {
 		"backends":                 backends,
 		"solver_seconds":           solverSec,
 		"known_findings_reported":  len(kfLines),
+		"known_finding_obligations": kfCount,
 		"undischarged_or_refuted":  violations,
 	}
 	if cc.Instances > 0 {
@@ -435,9 +442,9 @@ func (cc *CheckCtx) finish(pd *PropDef, wall float64) int {
 	if len(cc.ToolErr) > 0 {
 		ev["tool_errors"] = cc.ToolErr
 	}
-	os.MkdirAll("/verif/evidence", 0o755)
+	os.MkdirAll(evDir, 0o755)
 	data, _ := json.MarshalIndent(ev, "", " ")
-	os.WriteFile(filepath.Join("/verif/evidence", cc.Prop+".json"), data, 0o644)
+	os.WriteFile(filepath.Join(evDir, cc.Prop+".json"), data, 0o644)
 	for _, l := range kfLines {
 		fmt.Println(l)
 	}
